@@ -11,19 +11,6 @@ set_option linter.unusedSimpArgs false
 namespace Mab
 variable {α : Type} [DecidableEq α]
 
-/-- the rewards `default_evaluator` credits to arm `a` when the substitute for a row whose prediction
-    differs from the logged decision depends on the row — the neighbourhood branch: the statistic of
-    the predicted arm in *that row's* neighbourhood when there is one, else the training statistic -/
-def creditedBy (decisions : List α) (rewards : List Rat) (predictions : List α) (subs : List (α → Rat)) (a : α) : List Rat :=
-  (List.zip predictions (List.zip decisions (List.zip rewards subs))).filterMap fun p =>
-    if p.1 = a then some (if p.1 = p.2.1 then p.2.2.1 else p.2.2.2 a) else none
-
-/-- the neighbourhood substitute of one row -/
-def nnSub (nbr : Option (α → Option Rat)) (train : α → Rat) : α → Rat :=
-  fun a => match nbr with
-    | some f => (f a).getD (train a)
-    | none => train a
-
 theorem count_partition {β : Type} (arms : List α) (hn : arms.Nodup) (key : β → α) :
     ∀ (zs : List β), (∀ z ∈ zs, key z ∈ arms) → ((arms.map fun a => (zs.filter fun z => key z = a).length).sum) = zs.length := by
   intro zs
